@@ -43,6 +43,65 @@ def gen_decl_case(rng):
     return [str(k)] + ops
 
 
+# words that clang's textual AST dump itself prints as keywords or markers on declaration / expression lines
+AST_WORDS = ["prev", "used", "referenced", "implicit", "cinit", "callinit", "listinit", "col", "line", "invalid", "sloc", "definition",
+             "parent", "first", "nrvo", "hidden", "imported", "lvalue", "Var", "ParmVar", "Field", "Function", "tls", "depth", "bitfield",
+             "non_odr_use_unevaluated", "part_of_explicit_cast", "prvalue", "xvalue", "external", "previous", "instantiated_from", "undeserialized"]
+
+
+FIXED_PROGRAMS = [
+    # doubly linked list: a field and a local both named like clang's redeclaration marker
+    ("c", "struct item { struct item *prev; struct item *next; int weight; };\n"
+          "int back_sum(struct item *it) {\n    int acc = 0;\n    struct item *prev = it;\n    while (prev) {\n"
+          "        acc += prev->weight;\n        prev = prev->prev;\n    }\n    return acc;\n}\n"
+          "int prev;\nint get_prev(void) { return prev; }\n"),
+    # genuine redeclarations: extern + definition + tentative definition, uses before / between / after
+    ("c", "extern int x;\nint before(void) { return x; }\nint x = 0;\nint between(void) { return x + 1; }\nint x;\nint after(void) { return x + 2; }\n"
+          "static int used; static int used;\nint g(void) { return used; }\n"),
+    ("cpp", "struct C { static int first; int implicit; int get() const { return implicit + first; } };\nint C::first = 1;\n"
+            "extern int line;\nint col() { return line; }\nint line = 3;\nint referenced(C& definition) { return definition.implicit + line; }\n"),
+    # a function named like the marker (known finding)
+    ("c", "int prev(int a) { return a + 1; }\nint other(int b) { return prev(b) + 1; }\n"),
+]
+
+
+def gen_keyword_program(rng, k):
+    """A small C (30% C++) unit whose locals, globals, parameters, fields, functions and typedefs are NAMED like the words of
+    clang's AST dump, with a linked-list walk through fields, member access, shadowing and genuine redeclarations."""
+    w = rng.sample(AST_WORDS, 14)
+    S, fprev, fnext, fval, td, gext, gstat, fn, pa, pb, la, lb, caller, lc = w
+    cpp = rng.random() < 0.3
+    sk = "" if cpp else "struct "
+    parts = [
+        "struct %s { struct %s *%s; struct %s *%s; int %s; };" % (S, S, fprev, S, fnext, fval),
+        "typedef int %s_t;" % td,
+        "extern int %s;" % gext,
+        "static int %s = %d;" % (gstat, rng.randint(1, 9)),
+    ]
+    body = ["int %s(%s%s *%s, int %s) {" % (fn, sk, S, pa, pb),
+            "    %s_t %s = %s + %s;" % (td, la, pb, gstat),
+            "    %s%s *%s = %s;" % (sk, S, lb, pa),
+            "    while (%s) {" % lb,
+            "        %s += %s->%s;" % (la, lb, fval),
+            "        %s = %s->%s;" % (lb, lb, rng.choice([fprev, fnext])),
+            "    }",
+            "    { int %s = %s; %s += %s; }" % (pb, la, la, pb) if rng.random() < 0.5 else "    %s -= 1;" % la,
+            "    return %s + %s;" % (la, gext),
+            "}"]
+    parts += body
+    parts.append("int %s = %d;" % (gext, rng.randint(0, 9)))      # the genuine redeclaration (definition after extern)
+    if rng.random() < 0.5:
+        parts.append("int %s;" % gext if not cpp else "extern int %s;" % gext)   # tentative definition / another redeclaration
+    parts += ["int %s(void) {" % caller if not cpp else "int %s() {" % caller,
+              "    %s%s %s;" % (sk, S, lc),
+              "    %s.%s = %s;" % (lc, fval, gext),
+              "    %s.%s = 0;" % (lc, fprev),
+              "    %s.%s = &%s;" % (lc, fnext, lc),
+              "    return %s(&%s, %s.%s) + %s;" % (fn, lc, lc, fval, gext),
+              "}"]
+    return ("cpp" if cpp else "c"), "\n".join(parts) + "\n"
+
+
 def clang_ops(path):
     """clang's JSON AST -> (ops in dump order, info per token index)."""
     rc, out, _ = vlib.sh([CLANG, "-Xclang", "-ast-dump=json", "-fsyntax-only", "-w", path], timeout=120)
@@ -55,14 +114,17 @@ def clang_ops(path):
         return None
     ops, info = [], []
 
-    def walk(n, anc=(), sib=0):
+    def walk(n, anc=(), sib=0, fn=None):
         k = n.get("kind")
-        if k in ("VarDecl", "ParmVarDecl", "EnumConstantDecl", "FunctionDecl") and not n.get("isImplicit"):
+        if k in ("FunctionDecl", "CXXMethodDecl"):
+            fn = n.get("name")
+        if k in ("VarDecl", "ParmVarDecl", "FieldDecl", "EnumConstantDecl", "FunctionDecl") and not n.get("isImplicit"):
             off = (n.get("loc") or {}).get("offset")
             if off is not None and n.get("name"):
-                ops.append(({"VarDecl": "V", "ParmVarDecl": "V", "EnumConstantDecl": "E", "FunctionDecl": "F"}[k], n["id"], len(info)))
+                ops.append(({"VarDecl": "V", "ParmVarDecl": "V", "FieldDecl": "V", "EnumConstantDecl": "E", "FunctionDecl": "F"}[k], n["id"], len(info)))
                 info.append({"kind": k, "id": n["id"], "offset": off, "name": n["name"],
-                             "later_declarator": bool(anc and anc[-1] == "DeclStmt" and sib > 0)})
+                             "later_declarator": bool(k == "VarDecl" and anc and anc[-1] == "DeclStmt" and sib > 0),
+                             "param_of": fn if k == "ParmVarDecl" else None})
         elif k == "DeclRefExpr":
             ref = n.get("referencedDecl") or {}
             off = ((n.get("range") or {}).get("begin") or {}).get("offset")
@@ -70,9 +132,16 @@ def clang_ops(path):
                 ops.append(("R", ref["id"], len(info)))
                 info.append({"kind": k, "id": n["id"], "offset": off, "name": ref.get("name"), "target": ref["id"], "tkind": ref.get("kind"),
                              "in_sizeof": "UnaryExprOrTypeTraitExpr" in anc})
+        elif k == "MemberExpr":
+            # the import puts the member's name token at the position of the whole expression
+            off = ((n.get("range") or {}).get("begin") or {}).get("offset")
+            if n.get("referencedMemberDecl") and n.get("name") and off is not None:
+                ops.append(("R", n["referencedMemberDecl"], len(info)))
+                info.append({"kind": k, "id": n["id"], "offset": off, "name": n["name"], "target": n["referencedMemberDecl"], "tkind": "FieldDecl",
+                             "in_sizeof": "UnaryExprOrTypeTraitExpr" in anc})
         for ci, c in enumerate(n.get("inner", []) or []):
             if isinstance(c, dict):
-                walk(c, anc + (k,), ci)
+                walk(c, anc + (k,), ci, fn)
     walk(j)
     return ops, info
 
@@ -138,9 +207,19 @@ def check(run, replay):
     run.extra["clang"] = vlib.sh([CLANG, "--version"])[1].split("\n")[0]
     shutil.rmtree(WORK, ignore_errors=True)
     os.makedirs(WORK, exist_ok=True)
-    nprog = 60 if quick else 1500
+    nprog = 80 if quick else 1500
     progs = []
+    for k, (lang, text) in enumerate(FIXED_PROGRAMS):
+        p = os.path.join(WORK, "fixed%02d.%s" % (k, lang))
+        open(p, "w").write(text)
+        progs.append((p, text))
     for k in range(nprog):
+        if k % 2 == 1:
+            lang, text = gen_keyword_program(rng, k)
+            p = os.path.join(WORK, "p%04d.%s" % (k, lang))
+            open(p, "w").write(text)
+            progs.append((p, text))
+            continue
         lang, text = D.gen_dump_program(rng, lang="c" if rng.random() < 0.7 else "cpp")
         text = "\n".join(l for l in text.split("\n") if not l.startswith("#include") and "std::" not in l and "_Static_assert" not in l and "static_assert" not in l)
         if rng.random() < 0.5:   # uses before declarations / shadowing / enumerators
@@ -152,11 +231,7 @@ def check(run, replay):
     def one(pt):
         p, text = pt
         co = clang_ops(p)
-        for attempt in range(6):
-            rc, out, _ = vlib.sh([vlib.CPPCHECK, "--clang=" + CLANG, "--dump", "-q", p], timeout=180, cwd=WORK)
-            if not (rc in (126, 127) or "installation is broken" in out or "Permission denied" in out or "Text file busy" in out):
-                break
-            time.sleep(10)   # the shared binary is being relinked by another check
+        rc, out = D.sh_retry([vlib.CPPCHECK, "--clang=" + CLANG, "--dump", "-q", p], timeout=180, cwd=WORK)
         return co, rc, out, (p + ".dump") if os.path.exists(p + ".dump") else None
     with ThreadPoolExecutor(max_workers=6) as ex:
         results = list(ex.map(one, progs))
@@ -170,7 +245,7 @@ def check(run, replay):
                           "cat '%s'\ncat '%s' >&2\ncat '%s'\n" % tuple(os.path.join(data, f) for f in ("ast_part1.txt", "clang_stderr.txt", "ast_part2.txt")))
     os.chmod(fake, 0o755)
     shutil.copy(os.path.join(data, "small.c"), os.path.join(WORK, "small.c"))
-    rc, out, _ = vlib.sh([vlib.CPPCHECK, "--clang=" + fake, "--dump", "-q", os.path.join(WORK, "small.c")], timeout=60, cwd=WORK)
+    rc, out = D.sh_retry([vlib.CPPCHECK, "--clang=" + fake, "--dump", "-q", os.path.join(WORK, "small.c")], timeout=60, cwd=WORK)
     have_dump = os.path.exists(os.path.join(WORK, "small.c.dump")) and "<token " in open(os.path.join(WORK, "small.c.dump")).read()
     run.count("clang-corpus", None, nontrivial="stderr_in_the_middle", bucket="exit %s, dump %s" % (rc, "with tokens" if have_dump else "without tokens"))
     if rc < 0 or rc in (134, 139) or "internalError" in out or not have_dump:
@@ -183,7 +258,7 @@ def check(run, replay):
     reader = D.load_reader()
     c14model = vlib.build_model("C14") if os.path.exists(os.path.join(vlib.COQ, "theories/Dump/Run.vo")) else None
     val = C14.Validator(run, c14model, reader) if c14model else None
-    compared = notfound = clang_rejected = 0
+    compared = notfound = clang_rejected = unmodelled = 0
     reported = 0
     for (p, text), (co, rc, out, dump) in zip(progs, results):
         name = os.path.basename(p)
@@ -211,16 +286,17 @@ def check(run, replay):
         for d in root.findall("dump"):
             toks, dup_pos = {}, set()
             for t in d.iter("token"):
-                k2 = (int(t.get("linenr")), int(t.get("column")))
+                k2 = (int(t.get("linenr")), int(t.get("column")), t.get("str"))
                 if k2 in toks:
                     dup_pos.add(k2)
                 toks[k2] = t
-            for k2 in dup_pos:   # two tokens at one position (template instantiations): not comparable by position
+            for k2 in dup_pos:   # two equal names at one position (template instantiations, p->prev->prev): not comparable by position
                 del toks[k2]
             use_count = {}
             for inf in info:
-                if inf["kind"] == "DeclRefExpr":
-                    use_count[inf["offset"]] = use_count.get(inf["offset"], 0) + 1
+                if inf["kind"] in ("DeclRefExpr", "MemberExpr"):
+                    k3 = (inf["offset"], inf["name"])
+                    use_count[k3] = use_count.get(k3, 0) + 1
             tokid = {t.get("id"): t for t in d.iter("token")}
             var_name_tok = {v.get("id"): v.get("nameToken") for vs in d.findall("variables") for v in vs.findall("var")}
             # uses sit at clang's exact position; declarations do not (the import places the name token
@@ -229,14 +305,15 @@ def check(run, replay):
             # the declared name, and uses of different declarations never share a varId
             by_var, by_decl = {}, {}
             for ti, inf in enumerate(info):
-                if inf["kind"] != "DeclRefExpr" or inf.get("tkind") not in ("VarDecl", "ParmVarDecl"):
+                if inf["kind"] not in ("DeclRefExpr", "MemberExpr") or inf.get("tkind") not in ("VarDecl", "ParmVarDecl", "FieldDecl"):
                     continue
                 mv = m[4 * ti + 1]
                 if mv == "":
-                    continue   # model: unresolved (declaration outside the modelled kinds)
+                    unmodelled += 1   # clang resolved it to a declaration outside the op kinds (e.g. a lambda capture, a binding)
+                    continue
                 decl = info[int(mv)]
-                tok = toks.get(linecol(text, inf["offset"]))
-                if tok is None or tok.get("str") != inf["name"] or use_count.get(inf["offset"], 0) != 1:
+                tok = toks.get(linecol(text, inf["offset"]) + (inf["name"],))
+                if tok is None or use_count.get((inf["offset"], inf["name"]), 0) != 1:
                     notfound += 1
                     continue
                 compared += 1
@@ -257,6 +334,9 @@ def check(run, replay):
                     bad = "clang resolved it to the declaration of another use, cppcheck to a different variable"
                 if bad == "token has no variable" and decl.get("later_declarator"):
                     run.violation("e2e-unlinked-later-declarator", "--clang: use of '%s' at %s has no variable: its declaration is the 2nd+ declarator of one statement, which the import drops" % (inf["name"], linecol(text, inf["offset"])),
+                                  {"input": text, "use_offset": inf["offset"], "clang_decl": decl})
+                elif bad == "token has no variable" and decl.get("param_of") == "prev":
+                    run.violation("e2e-unlinked-param-of-function-named-prev", "--clang: use of parameter '%s' at %s of a function named `prev` has no variable" % (inf["name"], linecol(text, inf["offset"])),
                                   {"input": text, "use_offset": inf["offset"], "clang_decl": decl})
                 elif bad == "token has no variable" and inf.get("in_sizeof"):
                     run.violation("e2e-unlinked-in-sizeof", "--clang: use of '%s' at %s inside sizeof has no variable" % (inf["name"], linecol(text, inf["offset"])),
@@ -286,6 +366,7 @@ def check(run, replay):
     run.extra["e2e_programs"] = len(progs)
     run.extra["e2e_uses_compared"] = compared
     run.extra["e2e_uses_token_not_at_clang_position"] = notfound
+    run.extra["e2e_uses_declaration_kind_not_modelled"] = unmodelled
     run.extra["e2e_no_ast_or_dump"] = clang_rejected
     if len(run.samples) < 12:
         run.samples.append({"stream": "clang-e2e", "programs": len(progs), "uses_compared": compared})
